@@ -2,7 +2,7 @@
    Statements only; proofs are `exact <lemma>` from Proofs/C01_proofs.v / Proofs/C02_proofs.v.
    The model (Model/C01.v) is shared with C01; read_message reports, with every delivered
    message, the authenticated event `authev` (MAC input and tag, or AEAD iv/aad/ciphertext). *)
-From PV Require Import Bytes C01 C01_proofs C02 C02_proofs.
+From PV Require Import Bytes C01 C01_proofs C02 C02_gen C02_proofs.
 Open Scope Z_scope.
 
 (* util.constant_time_bytes_eq, modelled literally (length test, OR of XORs), is equality *)
@@ -96,28 +96,68 @@ Example C02_nodup_example :
   length (honest_nonces toyP 4 (cfg_apply (init_state 0 true) ex_cfg) ex_wire) = 4%nat.
 Proof. exact ex_nodup. Qed.
 
-(* NOT proved: the classic (MAC-then-encrypt) instance of C02_prefix.  There the authenticated
-   event holds the plaintext, so the payload is determined (C02_no_deliver_before_check) but the
-   next cipher-context state is determined only under an additional law (decryption injective per
-   state), which DESIGN.md section 5 does not list.  The single-step cores used by C02_prefix are
-   kept under their _partial names. *)
-Theorem C02_prefix_aead_step_partial :
+(* The single-step lemmas used by C02_prefix (complete statements): in a given receiver state the
+   authenticated event determines the delivered payload and the next receiver state. *)
+Theorem C02_aead_step :
   forall P r k iv T W p ev r' rest ph evh rh resth,
     p_mode r = Aead k iv ->
     read_message P (list Z) ftake r T = Done (p, ev, r') rest ->
     read_message P (list Z) ftake r W = Done (ph, evh, rh) resth ->
     ev = evh -> p = ph /\ r' = rh.
 Proof. exact aead_step. Qed.
-Print Assumptions C02_prefix_aead_step_partial.
+Print Assumptions C02_aead_step.
 
-Theorem C02_prefix_etm_step_partial :
+Theorem C02_etm_step :
   forall P r c k T W p ev r' rest ph evh rh resth,
     p_mode r = Etm c k -> bytes_ok T = true -> bytes_ok W = true ->
     read_message P (list Z) ftake r T = Done (p, ev, r') rest ->
     read_message P (list Z) ftake r W = Done (ph, evh, rh) resth ->
     ev = evh -> p = ph /\ r' = rh.
 Proof. exact etm_step. Qed.
-Print Assumptions C02_prefix_etm_step_partial.
+Print Assumptions C02_etm_step.
+
+(* NOT proved: the classic (MAC-then-encrypt) instance of the multi-packet theorem C02_prefix.  Proved for that
+   path: C02_no_deliver_before_check, C02_mac_covers_packet and the single-step fragment below: two deliveries
+   from the same receiver state with the same authenticated event are `finish` applied to the SAME plaintext
+   packet and tag.  Missing for the whole stream: (1) a byte-range law for decryption output (the length field is
+   read from decrypted bytes, so size is known only modulo 2^32), (2) the induction with receiver states equal
+   up to the cipher-context state (the adversary's ciphertext need not be the sender's). *)
+Theorem C02_classic_step_packet_partial :
+  forall P r c k T W p ev r' rest ph evh rh resth,
+    p_mode r = Classic c k -> 0 < p_msz r ->
+    read_message P (list Z) ftake r T = Done (p, ev, r') rest ->
+    read_message P (list Z) ftake r W = Done (ph, evh, rh) resth ->
+    ev = evh ->
+    exists size sizeh packet tag m1 m2,
+      ev = EvMac (mac_input (p_seq r) size packet) tag /\ size mod 2 ^ 32 = sizeh mod 2 ^ 32 /\
+      constant_time_bytes_eq (mac_tag P k (p_msz r) (mac_input (p_seq r) size packet)) tag = true /\
+      finish P r m1 size packet ev = Ok (p, ev, r') /\ finish P r m2 sizeh packet ev = Ok (ph, ev, rh).
+Proof. exact classic_step_packet. Qed.
+Print Assumptions C02_classic_step_packet_partial.
+
+(* ---- source facts: coq/Gen/C02_gen.v is regenerated from paramiko/util.py and packet.py on every run by
+   gen/c02.py (fail closed: it also checks that compute_hmac is one HMAC over the whole message, that both
+   receiver MAC paths build pack(">II", seqno, size) + packet, truncate to mac_size, compare with
+   util.constant_time_bytes_eq and raise SSHException, and the sender's MAC input) --------------------------- *)
+
+(* the comparison function as written in util.py IS the model's constant_time_bytes_eq (hence equality, C02_cteq) *)
+Theorem C02_source_cteq : forall a b, g2_cteq a b = constant_time_bytes_eq a b.
+Proof. exact source2_cteq. Qed.
+Print Assumptions C02_source_cteq.
+
+Theorem C02_source_mac_layout :
+  forall seq size packet,
+    mac_input seq size packet =
+    be_encode (Z.to_nat (nth 0 g2_mac_recv_fields 0)) seq ++ be_encode (Z.to_nat (nth 1 g2_mac_recv_fields 0)) size ++ packet
+    /\ length g2_mac_recv_fields = 2%nat /\ g2_mac_send_fields = [4].
+Proof. exact source2_mac_layout. Qed.
+Print Assumptions C02_source_mac_layout.
+
+(* statement order of read_message: every tag check precedes every use of the packet contents (payload slice,
+   decompression, Message construction, seqno store, return); the ETM check precedes decryption *)
+Theorem C02_source_order : read_order_ok g2_read_order = true.
+Proof. exact source2_order. Qed.
+Print Assumptions C02_source_order.
 
 (* a tampered stream is read with the same result however it is fragmented (shared with C01) *)
 Theorem C02_fragmentation :
